@@ -1,5 +1,6 @@
 import Proofs.PreserveProv
 import Proofs.PreserveGenEq
+import Proofs.PreserveMaGenEq
 
 /-!
 # C04 — mutations reuse learned weights; an unchanged architecture computes the same function;
@@ -505,5 +506,598 @@ example : EvolvableModule.preserve_parameters
   decide
 
 end source_translation
+
+end Preserve
+
+/-! # lists of networks (multi-agent) and the mutation decorator
+
+`Gen/PreserveMaGen.lean` is written by `harness/py2lean_preservema.py` from the list branch of
+`Mutations.load_state_dicts / reinit_from_mutated / _apply_arch_mutation`, the clone comprehension of
+`get_offspring_eval_modules` (agilerl/hpo/mutation.py) and from `MutationContext` / `_mutation_wrapper`
+(agilerl/modules/base.py); `Proofs/PreserveMaGenEq.lean` proves it equal to `Model/Preserve.lean`
+(`loadList`, `reinitList`, `applyList`, `Deco.*`).  A list of networks is a list of states; all theorems hold for
+every number of sub-agents, every key / shape configuration (different per sub-agent) and every data type. -/
+
+namespace Preserve
+variable {α : Type}
+
+/-! ## lists of networks (multi-agent algorithms): every statement position by position -/
+section lists
+variable {β γ δ σ κ ο : Type}
+
+theorem zipInPlace_get (f : β → γ → Option β) : ∀ (xs : List β) (ys : List γ) (r : List β),
+    zipInPlace f xs ys = some r →
+    r.length = xs.length ∧ ∀ (i : Nat) (x : β), xs[i]? = some x →
+      ∃ a, r[i]? = some a ∧ (∀ y, ys[i]? = some y → f x y = some a) ∧ (ys[i]? = none → a = x)
+  | [], ys, r, h => by
+    cases ys <;> simp [zipInPlace] at h <;> subst h <;> simp
+  | x :: xs, [], r, h => by
+    simp only [zipInPlace, Option.some.injEq] at h; subst h
+    exact ⟨rfl, fun i x' hx => ⟨x', hx, by simp, fun _ => rfl⟩⟩
+  | x :: xs, y :: ys, r, h => by
+    simp only [zipInPlace] at h
+    cases h1 : f x y with
+    | none => simp [h1] at h
+    | some a =>
+      cases h2 : zipInPlace f xs ys with
+      | none => simp [h1, h2] at h
+      | some r' =>
+        simp only [h1, h2, Option.some.injEq] at h; subst h
+        obtain ⟨hl, hg⟩ := zipInPlace_get f xs ys r' h2
+        refine ⟨by simp [hl], fun i x' hx => ?_⟩
+        cases i with
+        | zero => simp at hx; subst hx; exact ⟨a, by simp, by simpa using h1, by simp⟩
+        | succ i => simpa using hg i x' (by simpa using hx)
+
+theorem zipM_get (f : β → γ → Option δ) : ∀ (xs : List β) (ys : List γ) (r : List δ),
+    zipM f xs ys = some r → xs.length = ys.length →
+    r.length = xs.length ∧ ∀ (i : Nat) (x : β) (y : γ), xs[i]? = some x → ys[i]? = some y →
+      ∃ a, r[i]? = some a ∧ f x y = some a
+  | [], [], r, h, _ => by simp [zipM] at h; subst h; simp
+  | [], _ :: _, _, _, hl => by simp at hl
+  | _ :: _, [], _, _, hl => by simp at hl
+  | x :: xs, y :: ys, r, h, hl => by
+    simp only [zipM] at h
+    cases h1 : f x y with
+    | none => simp [h1] at h
+    | some a =>
+      cases h2 : zipM f xs ys with
+      | none => simp [h1, h2] at h
+      | some r' =>
+        simp only [h1, h2, Option.some.injEq] at h; subst h
+        obtain ⟨hl', hg⟩ := zipM_get f xs ys r' h2 (by simpa using hl)
+        refine ⟨by simp [hl'], fun i x' y' hx hy => ?_⟩
+        cases i with
+        | zero => simp at hx hy; subst hx; subst hy; exact ⟨a, by simp, h1⟩
+        | succ i => simpa using hg i x' y' (by simpa using hx) (by simpa using hy)
+
+/-- **`Mutations.load_state_dicts`, any number of sub-agents**: module `i` afterwards is module `i` loaded from state
+    dict `i` — and from nothing else; modules beyond the shorter list keep their state; the order is kept. -/
+theorem C04_list_load_positionwise (rcp : Params α → Params α) (strip : Bool) (mods : List (NetState α))
+    (sds : List (Params α)) (res : List (NetState α)) (h : loadList rcp strip mods sds = some res) :
+    res.length = mods.length ∧ ∀ (i : Nat) (m : NetState α), mods[i]? = some m →
+      ∃ r, res[i]? = some r ∧
+        (∀ sd, sds[i]? = some sd → loadLoose m (if strip then rcp sd else sd) = some r) ∧
+        (sds[i]? = none → r = m) :=
+  zipInPlace_get _ mods sds res h
+
+theorem zipWith_snd_get : ∀ (xs : List β) (ys : List γ) (i : Nat), xs.length = ys.length →
+    (List.zipWith (fun _ n => n) xs ys)[i]? = ys[i]?
+  | [], [], _, _ => rfl
+  | [], _ :: _, _, h => by simp at h
+  | _ :: _, [], _, h => by simp at h
+  | x :: xs, y :: ys, i, h => by
+    cases i with
+    | zero => rfl
+    | succ i => simpa using zipWith_snd_get xs ys i (by simpa using h)
+
+/-- **targets / shared networks of sub-agent `i` are re-created from sub-agent `i`'s evaluation network only**
+    (`Mutations.reinit_from_mutated` on a list): element `i` of the result is the fresh network `i` (built from
+    offspring `i`'s `init_dict`) loaded with offspring `i`'s state dict; lengths and order are kept. -/
+theorem C04_list_reinit_positionwise (rcp : Params α → Params α) (offs fresh res : List (NetState α))
+    (hl : fresh.length = offs.length) (h : reinitList rcp false offs fresh = some res) :
+    res.length = offs.length ∧ ∀ (i : Nat) (o f : NetState α), offs[i]? = some o → fresh[i]? = some f →
+      ∃ r, res[i]? = some r ∧ loadLoose f (stateDict o) = some r := by
+  obtain ⟨h1, h2⟩ := zipInPlace_get _ _ _ _ h
+  have hz : (List.zipWith (fun (_ : NetState α) (n : NetState α) => n) offs fresh).length = offs.length := by
+    simp [hl]
+  refine ⟨by rw [h1, hz], fun i o f ho hf => ?_⟩
+  obtain ⟨a, ha, hm⟩ := h2 i f (by rw [zipWith_snd_get offs fresh i hl.symm]; exact hf)
+  refine ⟨a, ha, ?_⟩
+  simpa using hm.1 (stateDict o) (by simp [ho])
+
+/-- **no cross-agent mixing**: two runs that agree on sub-agent `i` (its offspring and its fresh network) agree on
+    sub-agent `i`'s re-created network, whatever the other sub-agents' networks are. -/
+theorem C04_list_reinit_no_cross_agent (rcp : Params α → Params α) (offs offs' fresh fresh' res res' : List (NetState α))
+    (hl : fresh.length = offs.length) (hl' : fresh'.length = offs'.length)
+    (h : reinitList rcp false offs fresh = some res) (h' : reinitList rcp false offs' fresh' = some res')
+    (i : Nat) (hi : i < offs.length) (ho : offs[i]? = offs'[i]?) (hf : fresh[i]? = fresh'[i]?) :
+    res[i]? = res'[i]? := by
+  obtain ⟨o, hoi⟩ : ∃ o, offs[i]? = some o := ⟨offs[i], by simp [hi]⟩
+  obtain ⟨f, hfi⟩ : ∃ f, fresh[i]? = some f := ⟨fresh[i]'(by omega), by simp [show i < fresh.length by omega]⟩
+  obtain ⟨r, hr, e⟩ := (C04_list_reinit_positionwise rcp offs fresh res hl h).2 i o f hoi hfi
+  obtain ⟨r', hr', e'⟩ := (C04_list_reinit_positionwise rcp offs' fresh' res' hl' h').2 i o f (ho ▸ hoi) (hf ▸ hfi)
+  rw [hr, hr', ← Option.some.injEq, ← e, ← e']
+
+/-- the method list / keyword list `_apply_arch_mutation` works with -/
+def expandMeth (n : Nat) : Option String ⊕ List (Option String) → List (Option String)
+  | .inl m => List.replicate n m
+  | .inr l => l
+
+def expandKw (n : Nat) (empty : κ) : Option (List κ) → List κ
+  | none => List.replicate n empty
+  | some l => l
+
+theorem applyLoop_get (call : ο → String → κ → Option (ο × Option κ)) (clear : ο → ο) (lastAttr : ο → Option String)
+    (empty : κ) (ms : List (Option String)) (ks : List κ) : ∀ (nets : List ο) (j : Nat)
+    (out : List ο × List (Option String) × List κ), applyLoop call clear lastAttr empty ms ks j nets = some out →
+    out.1.length = nets.length ∧ out.2.1.length = nets.length ∧ out.2.2.length = nets.length ∧
+    ∀ (i : Nat) (o : ο), nets[i]? = some o →
+      ∃ a, applyAt call clear lastAttr empty ms ks (j + i) o = some a ∧
+        out.1[i]? = some a.1 ∧ out.2.1[i]? = some a.2.1 ∧ out.2.2[i]? = some a.2.2
+  | [], j, out, h => by simp [applyLoop] at h; subst h; simp
+  | o :: os, j, out, h => by
+    simp only [applyLoop] at h
+    cases h1 : applyAt call clear lastAttr empty ms ks j o with
+    | none => simp [h1] at h
+    | some a =>
+      cases h2 : applyLoop call clear lastAttr empty ms ks (j + 1) os with
+      | none => simp [h1, h2] at h
+      | some r =>
+        simp only [h1, h2, Option.some.injEq] at h; subst h
+        obtain ⟨l1, l2, l3, hg⟩ := applyLoop_get call clear lastAttr empty ms ks os (j + 1) r h2
+        refine ⟨by simp [l1], by simp [l2], by simp [l3], fun i o' ho' => ?_⟩
+        cases i with
+        | zero => simp at ho'; subst ho'; exact ⟨a, by simpa using h1, by simp, by simp, by simp⟩
+        | succ i =>
+          obtain ⟨b, hb, e1, e2, e3⟩ := hg i o' (by simpa using ho')
+          exact ⟨b, by rw [← hb]; congr 1; omega, by simpa using e1, by simpa using e2, by simpa using e3⟩
+
+/-- **the architecture mutation of a list of networks works sub-agent by sub-agent** (`_apply_arch_mutation`): network
+    `i` afterwards, the applied method `i` and the returned keyword dict `i` are the outcome of ONE dynamic call on
+    network `i` with method `i` and keyword dict `i` (`applyAt`) — no other sub-agent's network enters; lengths and
+    order are kept; a `None` method leaves the network as it is (only the record of the last mutation is cleared). -/
+theorem C04_list_apply_positionwise (call : ο → String → κ → Option (ο × Option κ)) (clear : ο → ο)
+    (lastAttr : ο → Option String) (empty : κ) (nets : List ο) (meth : Option String ⊕ List (Option String))
+    (kws : Option (List κ)) (out : List ο × List (Option String) × List κ)
+    (h : applyList call clear lastAttr empty nets meth kws = some out) :
+    out.1.length = nets.length ∧ out.2.1.length = nets.length ∧ out.2.2.length = nets.length ∧
+    ∀ (i : Nat) (o : ο), nets[i]? = some o →
+      ∃ a, applyAt call clear lastAttr empty
+          (expandMeth nets.length meth) (expandKw nets.length empty kws) i o = some a ∧
+        out.1[i]? = some a.1 ∧ out.2.1[i]? = some a.2.1 ∧ out.2.2[i]? = some a.2.2 := by
+  have e : applyList call clear lastAttr empty nets meth kws =
+      applyLoop call clear lastAttr empty (expandMeth nets.length meth) (expandKw nets.length empty kws) 0 nets := by
+    cases meth <;> cases kws <;> rfl
+  rw [e] at h
+  have := applyLoop_get call clear lastAttr empty _ _ nets 0 out h
+  simpa using this
+
+/-- one method for all sub-agents (`mut_method` a string): sub-agent `i` receives exactly that method with its own
+    keyword dict, and the method recorded for it is read from ITS network -/
+theorem C04_list_apply_single_method (call : ο → String → κ → Option (ο × Option κ)) (clear : ο → ο)
+    (lastAttr : ο → Option String) (empty : κ) (nets : List ο) (s : String)
+    (out : List ο × List (Option String) × List κ)
+    (h : applyList call clear lastAttr empty nets (.inl (some s)) none = some out)
+    (i : Nat) (o : ο) (ho : nets[i]? = some o) :
+    ∃ r, call o s empty = some r ∧ out.1[i]? = some r.1 ∧ out.2.1[i]? = some (lastAttr r.1) ∧
+      out.2.2[i]? = some (r.2.getD empty) := by
+  obtain ⟨_, _, _, hg⟩ := C04_list_apply_positionwise call clear lastAttr empty nets _ _ out h
+  obtain ⟨a, ha, e1, e2, e3⟩ := hg i o ho
+  have hi : i < nets.length := by
+    rcases Nat.lt_or_ge i nets.length with h | h
+    · exact h
+    · simp [List.getElem?_eq_none h] at ho
+  simp only [applyAt, expandMeth, expandKw, List.getElem?_replicate, hi, if_true] at ha
+  cases hc : call o s empty with
+  | none => simp [hc] at ha
+  | some r =>
+    simp only [hc, Option.some.injEq] at ha; subst ha
+    exact ⟨r, rfl, e1, e2, e3⟩
+
+/-- `recreate_network` of every sub-agent's network: `freshs[i]` is the network built for sub-agent `i`'s new
+    architecture -/
+def recreateList (pol : NormPolicy) (bp : BufPolicy) (mode : Mode) (olds freshs : List (NetState α)) :
+    Option (List (NetState α)) := zipM (recreate pol bp mode) olds freshs
+
+theorem recreate_params {pol : NormPolicy} {bp : BufPolicy} {mode : Mode} {old fresh r : NetState α}
+    (h : recreate pol bp mode old fresh = some r) : preserveNet pol mode old.params fresh.params = some r.params := by
+  simp only [recreate] at h
+  cases hp : preserveNet pol mode old.params fresh.params with
+  | none => simp [hp] at h
+  | some ps =>
+    simp only [hp] at h
+    cases bp with
+    | fresh => simp at h; subst h; rfl
+    | carry =>
+      cases hb : preserveNet .slice mode old.buffers fresh.buffers with
+      | none => simp [hb] at h
+      | some bs => simp [hb] at h; subst h; rfl
+
+/-- **(i) common-box preservation and freshness outside it, element by element**: after the architecture mutation
+    of a list-valued network attribute (any number of sub-agents, any keys and shapes, different architectures per
+    sub-agent allowed), every parameter of sub-agent `i` that exists before and after keeps sub-agent `i`'s OLD values
+    on the common index range and sub-agent `i`'s FRESH values outside it. -/
+theorem C04_list_common_box (mode : Mode) (olds freshs res : List (NetState α)) (hl : olds.length = freshs.length)
+    (h : recreateList .slice .carry mode olds freshs = some res) :
+    res.length = olds.length ∧
+    ∀ (i : Nat) (old fresh : NetState α), olds[i]? = some old → freshs[i]? = some fresh →
+      ∃ r, res[i]? = some r ∧ recreate .slice .carry mode old fresh = some r ∧
+        ∀ (key : String) (o n : Tensor α), lookup old.params key = some o → (key, n) ∈ fresh.params →
+          o.WF → n.WF → o.shape.length = n.shape.length → (mode = .shrink → o.shape.drop 2 = n.shape.drop 2) →
+          ∃ t, (key, t) ∈ r.params ∧ t.shape = n.shape ∧ t.WF ∧
+            (∀ idx, inBounds (boxMin o.shape n.shape) idx = true → t.get idx = o.get idx) ∧
+            (∀ idx, inBounds (boxMin o.shape n.shape) idx = false → t.get idx = n.get idx) := by
+  obtain ⟨h1, h2⟩ := zipM_get _ olds freshs res h hl
+  refine ⟨h1, fun i old fresh ho hf => ?_⟩
+  obtain ⟨r, hr, e⟩ := h2 i old fresh ho hf
+  refine ⟨r, hr, e, fun key o n hko hkn hwo hwn hrk hm => ?_⟩
+  exact C04_common_box mode old.params fresh.params r.params (recreate_params e) key o n hko hkn
+    (fun h => by cases h) hwo hwn hrk hm
+
+/-- **(iii) a shape-preserving mutation leaves every sub-agent's state identical**: if every fresh network has the
+    names and shapes of the network it replaces, the list after `recreate_network` IS the old list — any function of
+    any sub-agent's state is unchanged. -/
+theorem C04_list_noop_same_state (pol : NormPolicy) (mode : Mode) : ∀ (olds freshs : List (NetState α)),
+    AllPairs (fun (o f : NetState α) => Functional o.params ∧ Functional o.buffers ∧ SameArch o.params f.params ∧
+      SameArch o.buffers f.buffers) olds freshs →
+    recreateList pol .carry mode olds freshs = some olds
+  | [], [], _ => rfl
+  | [], _ :: _, h => by cases h
+  | _ :: _, [], h => by cases h
+  | o :: os, f :: fs, h => by
+    obtain ⟨⟨a, b, c, d⟩, rest⟩ := h
+    have ih := C04_list_noop_same_state pol mode os fs rest
+    simp only [recreateList] at ih ⊢
+    simp [zipM, (C04_noop_same_state pol mode o f a b c d).1, ih]
+
+end lists
+end Preserve
+
+namespace Preserve.Deco
+
+/-! ## the mutation decorator: every advertised mutation method is followed by exactly one `recreate_network` -/
+
+/-- number of `recreate_network` calls in a log -/
+def recreations (l : List DEv) : Nat := (l.filter fun e => match e with | .recreate _ => true | .hook => false).length
+
+theorem recreations_append (a b : List DEv) : recreations (a ++ b) = recreations a + recreations b := by
+  simp [recreations]
+
+/-- **inner calls are silent**: a wrapped method entered while another one is running (`add_layer` falling back on
+    `add_node`, depth ≥ 1) never re-creates the network and never calls the hook on its way out; it restores the depth
+    and leaves the record of the method entered last as the body left it. -/
+theorem C04_decorator_inner_silent (b : Mod) (meth : Meth) (nested : Option (Option String)) (wl : Option String)
+    (methodOf : String → Meth) (hd : 2 ≤ b.depth) :
+    exit b meth nested wl methodOf = some { b with depth := b.depth - 1 } := by
+  have : b.depth - 1 ≠ 0 := by omega
+  simp [exit, this]
+
+/-- **the outermost call re-creates exactly once, last**: when the outermost wrapped method of a module returns
+    (depth back at 1 before `__exit__`) and the method entered last is one of this module's own (`a`, no dot; the module
+    is not a wrapper), `__exit__` calls `recreate_network` exactly once — after everything the body did — with the
+    decorator's keyword arguments that `recreate_network` accepts, then the hook if one is registered; it records `a`
+    and the bound method `a`. -/
+theorem C04_decorator_outermost_recreates_once (b : Mod) (meth : Meth) (nested : Option (Option String))
+    (wl : Option String) (methodOf : String → Meth) (a : String)
+    (hd : b.depth = 1) (ha : b.lastAttr = some a) (hdot : dotted a = false) (hw : b.isWrapper = false) :
+    ∃ m1, exit b meth nested wl methodOf = some m1 ∧ m1.depth = 0 ∧ m1.lastAttr = some a ∧
+      m1.last = some (methodOf a) ∧
+      m1.log = b.log ++ [DEv.recreate (meth.kwargs.filter fun c => decide (c.1 ∈ b.recreateParams))]
+                ++ (if b.hasHook then [DEv.hook] else []) ∧
+      recreations m1.log = recreations b.log + 1 := by
+  have hr : resolve b nested wl = some (some a) := by simp [resolve, ha, hdot, hw]
+  have he : exit b meth nested wl methodOf = some { b with
+      depth := 0, lastAttr := some a, last := some (methodOf a),
+      log := b.log ++ [DEv.recreate (meth.kwargs.filter fun c => decide (c.1 ∈ b.recreateParams))]
+                ++ (if b.hasHook then [DEv.hook] else []) } := by
+    simp [exit, hd, hr, recreates, hdot, hw]
+  refine ⟨_, he, rfl, rfl, rfl, rfl, ?_⟩
+  simp only [recreations_append]
+  cases b.hasHook <;> simp [recreations]
+
+/-- **never more than once, and not at all** for a call that applied nothing (every method refused:
+    `last_mutation_attr` is None when the body returns), for a wrapper module, for an inner call, and when the resolved
+    name is a NESTED module's method (dotted: that module re-creates itself in its own `__exit__`) -/
+theorem C04_decorator_at_most_once (b : Mod) (meth : Meth) (nested : Option (Option String)) (wl : Option String)
+    (methodOf : String → Meth) (m1 : Mod) (h : exit b meth nested wl methodOf = some m1) :
+    recreations m1.log ≤ recreations b.log + 1 ∧
+    ((b.depth ≠ 1 ∨ b.isWrapper = true ∨ (b.lastAttr = none ∧ b.isWrapper = false) ∨
+        (∀ f, resolve b nested wl = some (some f) → dotted f = true)) →
+      recreations m1.log = recreations b.log) := by
+  simp only [exit] at h
+  split at h
+  · next hne =>
+    simp at h; subst h
+    exact ⟨by simp, fun _ => rfl⟩
+  · next hz =>
+    cases hr : resolve b nested wl with
+    | none => simp [hr] at h
+    | some fin =>
+      simp only [hr, Option.some.injEq] at h; subst h
+      simp only [recreations_append]
+      have hh : recreations (if b.hasHook = true then [DEv.hook] else []) = 0 := by
+        cases b.hasHook <;> simp [recreations]
+      refine ⟨?_, fun hc => ?_⟩
+      · rw [hh]; split <;> simp [recreations]
+      · have : recreates b fin = false := by
+          cases fin with
+          | none => rfl
+          | some f =>
+            simp only [recreates]
+            rcases hc with hc | hc | ⟨hc, hw⟩ | hc
+            · exact absurd (by omega) hc
+            · simp [hc]
+            · simp [resolve, hc, hw] at hr
+            · simp [hc f rfl]
+        simp [this, hh, recreations]
+
+end Preserve.Deco
+
+namespace Preserve.Deco
+
+/-- what a raw mutation method does to its module's bookkeeping: any sequence of calls of the module's own wrapped
+    methods (advertised, so the raw method runs), each with such a body again (`add_layer` → `add_node` → …) -/
+inductive Calls where
+  | done
+  | call (attr : String) (meth : Meth) (inner : Calls) (rest : Calls)
+
+/-- the wrapped calls of a body, executed with the model's `enter` / `exit` -/
+def runCalls (methodOf : String → Meth) (nested : Option (Option String)) (wl : Option String) : Calls → Mod → Option Mod
+  | .done, m => some m
+  | .call attr meth inner rest, m =>
+    match runCalls methodOf nested wl inner (enter m meth attr) with
+    | none => none
+    | some b =>
+      match exit b meth nested wl methodOf with
+      | none => none
+      | some m1 => runCalls methodOf nested wl rest m1
+
+/-- the method entered last in a body -/
+def lastEntered : Calls → Option String
+  | .done => none
+  | .call attr _ inner rest => ((lastEntered rest).orElse fun _ => lastEntered inner).orElse fun _ => some attr
+
+theorem runCalls_silent (methodOf : String → Meth) (nested : Option (Option String)) (wl : Option String) :
+    ∀ (t : Calls) (m : Mod), 1 ≤ m.depth →
+      ∃ m', runCalls methodOf nested wl t m = some m' ∧ m'.depth = m.depth ∧ m'.log = m.log ∧
+        m'.isWrapper = m.isWrapper ∧ m'.hasHook = m.hasHook ∧ m'.recreateParams = m.recreateParams ∧
+        m'.lastAttr = (lastEntered t).orElse fun _ => m.lastAttr
+  | .done, m, _ => by
+    exact ⟨m, rfl, rfl, rfl, rfl, rfl, rfl, by simp [lastEntered]⟩
+  | .call attr meth inner rest, m, hd => by
+    obtain ⟨b, hb, b1, b2, b3, b4, b5, b6⟩ := runCalls_silent methodOf nested wl inner (enter m meth attr)
+      (by simp [enter]; omega)
+    have hbd : 2 ≤ b.depth := by rw [b1]; simp [enter]; omega
+    have he := C04_decorator_inner_silent b meth nested wl methodOf hbd
+    obtain ⟨r, hr, r1, r2, r3, r4, r5, r6⟩ := runCalls_silent methodOf nested wl rest { b with depth := b.depth - 1 }
+      (by simp; omega)
+    have hrun : runCalls methodOf nested wl (.call attr meth inner rest) m = some r := by
+      simp [runCalls, hb, he, hr]
+    have hl : r.lastAttr = (lastEntered (.call attr meth inner rest)).orElse fun _ => m.lastAttr := by
+      rw [r6]; simp only [b6, lastEntered, enter]
+      cases lastEntered rest <;> cases lastEntered inner <;> simp
+    refine ⟨r, hrun, ?_, ?_, ?_, ?_, ?_, hl⟩
+    · rw [r1]; simp [b1, enter]
+    · rw [r2]; simp [b2, enter]
+    · rw [r3]; simp [b3, enter]
+    · rw [r4]; simp [b4, enter]
+    · rw [r5]; simp [b5, enter]
+
+/-- **(iv) every advertised mutation method is followed by exactly one carry-over**: an outermost call (depth 0) of an
+    advertised method `attr` of the module itself, whose raw body makes ANY tree of further wrapped calls of the
+    module's own methods: nothing is re-created while the body runs, and on the way out `recreate_network` — which
+    builds the new network and carries the old parameters over (`Gen/PreserveGen`'s `recreate_*`) — is called exactly
+    once, last; the recorded method is the one entered last. -/
+theorem C04_decorator_exactly_one_recreate (methodOf : String → Meth) (nested : Option (Option String))
+    (wl : Option String) (t : Calls) (m : Mod) (meth : Meth) (attr : String)
+    (hd : m.depth = 0) (hw : m.isWrapper = false)
+    (hdot : dotted ((lastEntered t).getD attr) = false) :
+    ∃ b m1, runCalls methodOf nested wl t (enter m meth attr) = some b ∧ b.log = m.log ∧
+      exit b meth nested wl methodOf = some m1 ∧ m1.depth = 0 ∧
+      m1.lastAttr = some ((lastEntered t).getD attr) ∧ m1.last = some (methodOf ((lastEntered t).getD attr)) ∧
+      m1.log = m.log ++ [DEv.recreate (meth.kwargs.filter fun c => decide (c.1 ∈ m.recreateParams))]
+                ++ (if m.hasHook then [DEv.hook] else []) ∧
+      recreations m1.log = recreations m.log + 1 := by
+  obtain ⟨b, hb, b1, b2, b3, b4, b5, b6⟩ := runCalls_silent methodOf nested wl t (enter m meth attr)
+    (by simp [enter, hd])
+  have ha : b.lastAttr = some ((lastEntered t).getD attr) := by
+    rw [b6]; cases lastEntered t <;> simp [enter]
+  obtain ⟨m1, h1, h2, h3, h4, h5, h6⟩ := C04_decorator_outermost_recreates_once b meth nested wl methodOf _
+    (by rw [b1]; simp [enter, hd]) ha hdot (by rw [b3]; simpa [enter] using hw)
+  refine ⟨b, m1, hb, by rw [b2]; rfl, h1, h2, h3, h4, ?_, ?_⟩
+  · rw [h5, b2, b4, b5]; rfl
+  · rw [h6, b2]; rfl
+
+/-- a disabled method (not advertised, module not inside a wrapper) is a no-op: the record is cleared and nothing is
+    re-created; a dotted attribute is forwarded to the nested module's own wrapped method -/
+theorem C04_decorator_disabled_noop {ρ : Type} (retNone : ρ) (m : Mod) (meth : Meth) (attr : String)
+    (bodyOut nestedOut : Mod × ρ) (nested : Option (Option String)) (wl : Option String) (methodOf : String → Meth)
+    (hd : m.depth = 0) (hw : m.isWrapper = false) (hna : attr ∉ m.methods) (hf : m.forwarded = false) :
+    ∃ m1, exit (wrapBody retNone (enter m meth attr) attr bodyOut nestedOut).1 meth nested wl methodOf = some m1 ∧
+      m1.lastAttr = none ∧ m1.depth = 0 ∧ recreations m1.log = recreations m.log := by
+  have e : (wrapBody retNone (enter m meth attr) attr bodyOut nestedOut).1 =
+      { m with depth := 1, last := none, lastAttr := none } := by
+    simp [wrapBody, enter, hna, hf, hd]
+  rw [e]
+  have hr : resolve { m with depth := 1, last := none, lastAttr := none } nested wl = some none := by
+    simp [resolve, hw]
+  have he : exit { m with depth := 1, last := none, lastAttr := none } meth nested wl methodOf =
+      some { m with depth := 0, last := none, lastAttr := none,
+                    log := m.log ++ [] ++ (if m.hasHook then [DEv.hook] else []) } := by
+    simp [exit, hr, recreates]
+  refine ⟨_, he, rfl, rfl, ?_⟩
+  simp only [recreations_append]
+  cases m.hasHook <;> simp [recreations]
+
+end Preserve.Deco
+
+namespace Preserve
+section source_translation_ma
+open PreserveGen PreserveMaGen
+variable {α σ κ : Type}
+
+theorem getElem?_map_toState (l : List (PyNet α)) (i : Nat) : (l.map toState)[i]? = (l[i]?).map toState := by
+  simp
+
+/-- **`Mutations.reinit_from_mutated` on a list, as written in the source**: the re-created shared / target network of
+    sub-agent `i` is the fresh network `i` (non-strictly) loaded with the state dict of the mutated evaluation network
+    `i` — and of no other sub-agent; as many networks as sub-agents, in the same order. -/
+theorem C04_source_translation_list_reinit_positionwise (rcp : SD α → SD α) (offs fresh res : List (PyNet α))
+    (hl : fresh.length = offs.length) (h : Mutations.reinit_from_mutated_list rcp offs false fresh = some res) :
+    res.length = offs.length ∧ ∀ (i : Nat) (o f : PyNet α), offs[i]? = some o → fresh[i]? = some f →
+      ∃ r, res[i]? = some r ∧ loadLoose (toState f) (stateDict (toState o)) = some (toState r) := by
+  have e := gen_reinit_from_mutated_list_eq rcp (fun p => toMs (rcp (ofMs p))) (fun sd => by rw [ofMs_toMs]) false offs fresh
+  rw [h] at e
+  obtain ⟨h1, h2⟩ := C04_list_reinit_positionwise _ (offs.map toState) (fresh.map toState) (res.map toState)
+    (by simp [hl]) e.symm
+  refine ⟨by simpa using h1, fun i o f ho hf => ?_⟩
+  obtain ⟨r, hr, hm⟩ := h2 i (toState o) (toState f) (by simp [ho]) (by simp [hf])
+  rw [getElem?_map_toState] at hr
+  cases hri : res[i]? with
+  | none => simp [hri] at hr
+  | some r' =>
+    simp only [hri, Option.map_some, Option.some.injEq] at hr
+    exact ⟨r', rfl, by rw [hr]; exact hm⟩
+
+theorem load_loop_same (rcp : SD α → SD α) : ∀ (offs fresh : List (PyNet α)),
+    AllPairs (fun f s => SameArchNet f s ∧ (keys (s.named_parameters ++ s.named_buffers)).Nodup) fresh offs →
+    Mutations.load_state_dicts_loop0 rcp false (List.zip (pyFreshEach offs fresh) (offs.map fun c => pyStateDict c)) =
+      some offs ∧ (pyFreshEach offs fresh).length = offs.length
+  | [], [], _ => ⟨rfl, rfl⟩
+  | [], _ :: _, h => by cases h
+  | _ :: _, [], h => by cases h
+  | o :: os, f :: fs, h => by
+    obtain ⟨⟨h1, h2⟩, rest⟩ := h
+    obtain ⟨ih, il⟩ := load_loop_same rcp os fs rest
+    simp only [pyFreshEach] at ih il
+    simp [pyFreshEach, Mutations.load_state_dicts_loop0, pyLoadStateDict_same false f o h1 h2, ih, il]
+
+/-- **targets are re-created from the matching online network**: when every `type(o_i)(**o_i.init_dict)` rebuilds
+    the architecture of `o_i` (C03), the list returned by `reinit_from_mutated` IS the list of the mutated evaluation
+    networks' states, sub-agent by sub-agent, in order — any function of any element's state is identical. -/
+theorem C04_source_translation_list_reinit_same_arch (rcp : SD α → SD α) (offs fresh : List (PyNet α))
+    (h : AllPairs (fun f s => SameArchNet f s ∧ DistinctNames s) fresh offs) :
+    Mutations.reinit_from_mutated_list rcp offs false fresh = some offs := by
+  obtain ⟨h1, h2⟩ := load_loop_same rcp offs fresh h
+  simp [Mutations.reinit_from_mutated_list, Mutations.load_state_dicts, h1, ← h2]
+
+/-- **the offspring of a list of evaluation networks** (`get_offspring_eval_modules`): with the same architectures
+    position by position, clone `i` has the state of network `i` -/
+theorem C04_source_translation_list_offspring_clones (selfs fresh : List (PyNet α))
+    (h : AllPairs (fun f s => SameArchNet f s ∧ DistinctNames s) fresh selfs) :
+    get_offspring_eval_modules_list selfs fresh = some selfs := gen_offspring_list_same selfs fresh h
+
+/-- **`Mutations._apply_arch_mutation` on a list, as written in the source**: sub-agent `i`'s network afterwards, the
+    method recorded for it and the keyword dict returned for it come from ONE dynamic call on network `i` with method
+    `i` and keyword dict `i`; nothing of sub-agent `j ≠ i` enters; lengths and order are kept. -/
+theorem C04_source_translation_list_apply_positionwise (call : PyObj σ → String → κ → Option (PyObj σ × Option κ))
+    (empty : κ) (nets : List (PyObj σ)) (meth : PyMeths) (kws : Option (List κ))
+    (out : List (PyObj σ) × List (Option String) × List κ)
+    (h : Mutations._apply_arch_mutation_list call empty nets meth kws = some out) :
+    out.1.length = nets.length ∧ out.2.1.length = nets.length ∧ out.2.2.length = nets.length ∧
+    ∀ (i : Nat) (o : PyObj σ), nets[i]? = some o →
+      ∃ a, applyAt call pyClear (·.last_mutation_attr) empty
+          (expandMeth nets.length (methsToSum meth)) (expandKw nets.length empty kws) i o = some a ∧
+        out.1[i]? = some a.1 ∧ out.2.1[i]? = some a.2.1 ∧ out.2.2[i]? = some a.2.2 := by
+  rw [gen_apply_arch_mutation_list_eq] at h
+  exact C04_list_apply_positionwise call pyClear (·.last_mutation_attr) empty nets _ kws out h
+
+/-- the sampled method (a string) is applied to EVERY sub-agent's network, each with an empty keyword dict, and the
+    method recorded for sub-agent `i` is `last_mutation_attr` of ITS network after ITS call -/
+theorem C04_source_translation_list_apply_single_method (call : PyObj σ → String → κ → Option (PyObj σ × Option κ))
+    (empty : κ) (nets : List (PyObj σ)) (s : String) (out : List (PyObj σ) × List (Option String) × List κ)
+    (h : Mutations._apply_arch_mutation_list call empty nets (.one (some s)) none = some out)
+    (i : Nat) (o : PyObj σ) (ho : nets[i]? = some o) :
+    ∃ r, call o s empty = some r ∧ out.1[i]? = some r.1 ∧ out.2.1[i]? = some r.1.last_mutation_attr ∧
+      out.2.2[i]? = some (r.2.getD empty) := by
+  rw [gen_apply_arch_mutation_list_eq] at h
+  exact C04_list_apply_single_method call pyClear (·.last_mutation_attr) empty nets s out h i o ho
+
+open Deco in
+/-- **the decorator as written in the source: an advertised mutation method is followed by exactly one
+    `recreate_network`**.  An outermost call (`_mutation_depth = 0`) of `wrapped` for an advertised method of the module
+    itself, whose raw method returns with the depth restored, having re-created nothing, the method entered last being
+    one of the module's own (`a`): `wrapped` returns the method's result, `recreate_network` was called exactly once,
+    after the body, with the decorator's keyword arguments that it accepts, then the hook; the record names `a`. -/
+theorem C04_source_translation_decorator_exactly_one_recreate
+    (getattr : PyMod → String → Option PyMod) (wrapped : PyMod → PyMod) (tbl : String → PyMeth)
+    (body : PyMod → PyMeth → PyMod × PyRes κ) (nested : PyMod → String → PyMod × PyRes κ)
+    (m : PyMod) (meth : PyMeth) (attr a : String)
+    (hadv : attr ∈ m.mutation_methods) (hnd : pyStrContains "." attr = false)
+    (hb1 : (body (MutationContext.__enter__ m meth attr) meth).1._mutation_depth = 1)
+    (hb2 : (body (MutationContext.__enter__ m meth attr) meth).1.last_mutation_attr = some a)
+    (hb3 : (body (MutationContext.__enter__ m meth attr) meth).1.is_wrapper = false)
+    (ha : pyStrContains "." a = false) :
+    ∃ m1, _mutation_wrapper.wrapped getattr wrapped (fun _ s => tbl s) body nested m meth attr =
+        some (m1, (body (MutationContext.__enter__ m meth attr) meth).2) ∧
+      m1._mutation_depth = 0 ∧ m1.last_mutation_attr = some a ∧
+      (toMod m1).log = (toMod (body (MutationContext.__enter__ m meth attr) meth).1).log ++
+        [DEv.recreate (meth._recreate_kwargs.filter fun c =>
+          decide (c.1 ∈ (body (MutationContext.__enter__ m meth attr) meth).1.recreate_params))] ++
+        (if (body (MutationContext.__enter__ m meth attr) meth).1.has_hook then [DEv.hook] else []) ∧
+      recreations (toMod m1).log = recreations (toMod (body (MutationContext.__enter__ m meth attr) meth).1).log + 1 := by
+  have hout : pyWrapOut body nested m meth attr = body (MutationContext.__enter__ m meth attr) meth := by
+    have : attr ∈ (MutationContext.__enter__ m meth attr).mutation_methods := hadv
+    simp [pyWrapOut, this, hnd]
+  generalize hbo : body (MutationContext.__enter__ m meth attr) meth = bo at *
+  obtain ⟨m1', h1, h2, h3, h4, h5, h6⟩ := C04_decorator_outermost_recreates_once (toMod bo.1) (toMeth meth)
+    (nestedOf getattr (decr bo.1)) (wrapped (decr bo.1)).last_mutation_attr (fun s => toMeth (tbl s)) a
+    hb1 hb2 (by rw [← gen_dotted_eq]; exact ha) hb3
+  have he := gen_exit_eq getattr wrapped tbl bo.1 meth attr
+  rw [h1] at he
+  cases hx : MutationContext.__exit__ getattr wrapped (fun _ s => tbl s) bo.1 meth attr with
+  | none => simp [hx] at he
+  | some m1 =>
+    simp only [hx, Option.map_some, Option.some.injEq] at he
+    refine ⟨m1, by rw [gen_wrapped_eq, hout, hx]; rfl, ?_, ?_, ?_, ?_⟩
+    · have : (toMod m1).depth = 0 := by rw [he]; exact h2
+      exact this
+    · have : (toMod m1).lastAttr = some a := by rw [he]; exact h3
+      exact this
+    · rw [he, h5]; rfl
+    · rw [he, h6]
+
+end source_translation_ma
+end Preserve
+
+namespace Preserve
+/-! ## non-vacuity for the list / decorator theorems -/
+
+/-- three sub-agents with DIFFERENT shapes and weights: every target takes its own sub-agent's values -/
+example : reinitList (α := Nat) id false
+      [⟨[("w", ⟨[1], [5]⟩)], []⟩, ⟨[("w", ⟨[2], [6, 7]⟩)], []⟩, ⟨[("w", ⟨[1], [8]⟩)], []⟩]
+      [⟨[("w", ⟨[1], [0]⟩)], []⟩, ⟨[("w", ⟨[2], [0, 0]⟩)], []⟩, ⟨[("w", ⟨[1], [0]⟩)], []⟩] =
+    some [⟨[("w", ⟨[1], [5]⟩)], []⟩, ⟨[("w", ⟨[2], [6, 7]⟩)], []⟩, ⟨[("w", ⟨[1], [8]⟩)], []⟩] := by decide
+/-- a fresh network of the wrong size for sub-agent 1: torch raises -/
+example : reinitList (α := Nat) id false
+      [⟨[("w", ⟨[1], [5]⟩)], []⟩, ⟨[("w", ⟨[2], [6, 7]⟩)], []⟩]
+      [⟨[("w", ⟨[1], [0]⟩)], []⟩, ⟨[("w", ⟨[1], [0]⟩)], []⟩] = none := by decide
+/-- `recreate_network` per sub-agent: sub-agent 0 grows 2→3, sub-agent 1 is unchanged -/
+example : recreateList (α := Nat) .slice .carry .full
+      [⟨[("w", ⟨[2], [5, 6]⟩)], []⟩, ⟨[("w", ⟨[1], [9]⟩)], []⟩]
+      [⟨[("w", ⟨[3], [0, 0, 0]⟩)], []⟩, ⟨[("w", ⟨[1], [0]⟩)], []⟩] =
+    some [⟨[("w", ⟨[3], [5, 6, 0]⟩)], []⟩, ⟨[("w", ⟨[1], [9]⟩)], []⟩] := by decide
+/-- `_apply_arch_mutation` with a fake call that records the method in the network: `None` skips sub-agent 1 -/
+example : applyList (ο := List String × Option String) (κ := Nat)
+      (fun o s k => some ((o.1 ++ [s], some s), some (k + 1))) (fun o => (o.1, none)) (·.2) 0
+      [([], none), ([], some "x"), ([], none)] (.inr [some "add_node", none, some "add_layer"]) none =
+    some ([(["add_node"], some "add_node"), ([], none), (["add_layer"], some "add_layer")],
+          [some "add_node", none, some "add_layer"], [1, 0, 1]) := by decide
+/-- `add_layer` at its limit falls back on `add_node` (a nested wrapped call): one `recreate_network`, recorded `add_node` -/
+example : (Deco.exit
+      ((Deco.runCalls (fun a => ⟨a, []⟩) none none (.call "add_node" ⟨"add_node", []⟩ .done .done)
+        (Deco.enter ⟨0, none, none, ["add_layer", "add_node"], false, false, false, ["shrink_params"], []⟩
+          ⟨"add_layer", [("shrink_params", "False"), ("other", "1")]⟩ "add_layer")).getD
+        ⟨0, none, none, [], false, false, false, [], []⟩)
+      ⟨"add_layer", [("shrink_params", "False"), ("other", "1")]⟩ none none (fun a => ⟨a, []⟩)).map
+        (fun m => (m.depth, m.lastAttr, m.log)) =
+    some (0, some "add_node", [Deco.DEv.recreate [("shrink_params", "False")]]) := by decide
+example : Deco.dotted "encoder.add_node" = true ∧ Deco.dotted "add_node" = false := by decide
+example : Deco.splitDot "encoder.feature_net.add_node" = ["encoder", "feature_net", "add_node"] := by decide
+/-- a nested module's method: the parent records `encoder.<what the encoder applied>` and re-creates nothing itself -/
+example : (Deco.exit ⟨1, none, some "encoder.add_layer", ["encoder.add_layer"], false, false, false, [], []⟩
+      ⟨"encoder.add_layer", []⟩ (some (some "add_node")) none (fun a => ⟨a, []⟩)).map (fun m => (m.lastAttr, m.log)) =
+    some (some "encoder.add_node", []) := by decide
 
 end Preserve
